@@ -214,6 +214,21 @@ def equal(it, a, b):
     """python == as a Bool term or python bool"""
     if a is None or b is None:
         return a is None and b is None
+    if isinstance(a, Obj) and a.module is not None and not getattr(it, "_in_eq", False):
+        # user-defined __eq__ of a repo class (real source, or its contract)
+        try:
+            m = getattr_(it, a, "__eq__")
+        except PyRaise:
+            m = None
+        if isinstance(m, BoundMethod):
+            it._in_eq = True
+            try:
+                r = it.call(m, [b], {})
+            finally:
+                it._in_eq = False
+            if r is NotImplemented:
+                return a is b
+            return r
     if isinstance(a, FStr):
         a = it.fstr_term(a)
     if isinstance(b, FStr):
@@ -1601,11 +1616,29 @@ def py_set(it, xs=()):
         return set_from_sym(it, xs)
     vals = it.iterate_concrete(xs)
     if any(is_t(v) for v in vals):
-        raise Unsupported("set() with symbolic members")
+        # finite set with symbolic members: de-duplicate by forking on equalities; the result
+        # is kept as a list (iteration order of a set is arbitrary anyway)
+        if it.spec_mode or len(vals) > 6:
+            raise Unsupported("set() with symbolic members")
+        out = SetList()
+        for v in vals:
+            dup = False
+            for w in out:
+                e = equal(it, v, w)
+                if e is True or (is_t(e) and it.truth(e, "set-dup")):
+                    dup = True
+                    break
+            if not dup:
+                out.append(v)
+        return out
     try:
         return set(vals)
     except TypeError:
         raise Unsupported("set() of unhashable values")
+
+
+class SetList(list):
+    """a small set with symbolic members (pairwise distinct on this path)"""
 
 
 def set_from_sym(it, xs):
